@@ -25,6 +25,20 @@ static void out_fp2v(const char *k0, const char *k1, const fp2_t a) {
 	out_fpv(k0, a[0]); out_fpv(k1, a[1]);
 }
 
+/* the pairing-friendly family the library advertises for the active curve (names of the EP_ constants) */
+static const char *fam_name(int f) {
+	switch (f) {
+		case 0: return "none";
+		case EP_BN: return "BN";
+		case EP_B12: return "B12";
+		case EP_B24: return "B24";
+		case EP_B48: return "B48";
+		case EP_K16: return "K16";
+		case EP_K18: return "K18";
+		default: return "other";
+	}
+}
+
 static int select_id(int id) {
 	volatile int ok = 1;
 	RLC_TRY {
@@ -83,6 +97,7 @@ static void dump_ep(int id) {
 	vh_int("super", ep_curve_is_super()); vh_int("ctmap", ep_curve_is_ctmap());
 	vh_int("opta", ep_curve_opt_a()); vh_int("optb", ep_curve_opt_b());
 	vh_int("level", ep_param_level()); vh_int("embed", ep_curve_embed());
+	vh_str("fam", fam_name(ep_curve_is_pairf()));
 	/* generator table entries the fixed-base multiplication relies on: t[i] as points */
 	{
 		const ep_t *tab = ep_curve_get_tab();
